@@ -83,6 +83,7 @@ class Gen:
         self.lines = []
         self.keep = KeepGen(rng, self.emit)
         self.nest = NestGen(rng, self.emit)
+        self.rt = RtGen(rng, self.emit)
     # values
     def ival(self):
         r = self.r; x = r.random()
@@ -220,6 +221,7 @@ class Gen:
         elif op == 'edit': self.edit_op()
         elif op == 'nested': self.nest.step()
         elif op == 'keep': self.keep.step()
+        elif op == 'rt': self.rt.step()
         elif op == 'probe': self.probe_op()
         elif op == 'ring': self.ring_op()
         elif op == 'exc':
@@ -628,14 +630,181 @@ class KeepGen:
         if self.size(h): self.emit('hget', h, self.pick_elem(h))
         if r.random() < 0.6: self.kill(h)
 
+
+# ------------------------------------------------------------------------------------------------ run-time types
+RT_TABLE = [('New', 'New', [1, 1]), ('Cmp', 'Cmp', [1]), ('Hash', 'Hash', [1]), ('Len', 'Len', [1]), ('C_Int', 'C_Int', [1]), ('Show', 'Show', [1, 0]),
+            ('Assign', 'Assign', [1]), ('Copy', 'Copy', [1]), ('Size', 'Size', [1]), ('C_Str', 'C_Str', [1]), ('C_Float', 'C_Float', [1]),
+            ('Get', 'Get', [1, 0, 1, 0, 0, 0]), ('Push', 'Push', [1, 1, 0, 0]), ('Concat', 'Concat', [1, 0]), ('Mark', 'Mark', [1]), ('Resize', 'Resize', [1]),
+            ('Hash2', 'Hash', [1]), ('Len2', 'Len', [1]), ('C_Int2', 'C_Int', [1]), ('New0', 'New', [1, 0])]       # same table as harness/h_cfg.c, Cello/ConfigType.lean
+RT_PROBE = ['New', 'Cmp', 'Hash', 'Len', 'C_Int', 'Show', 'Assign', 'Copy', 'Size', 'C_Str', 'C_Float', 'Get', 'Push', 'Concat', 'Mark', 'Resize', 'Iter', 'Doc']
+RT_ROUTES = ['new', 'raw', 'root', 'con', 'conraw', 'conroot']
+RT_NAMES = ['Cell', 'Foo', 'Point', 'A', 'Zq9', 'Vec3', 'Node', 'LongTypeName0123456', 'T', 'Pair']
+MAXTY = 8
+MAXOB = 24
+class RtGen:
+    """run-time types: new(Type, name, size, instances…) with 0…24 harness-provided instances (sometimes a class twice) by every public
+    route, queried (type_implements / type_instance / type_implements_method, name, size), used through objects (construct, the declared
+    member or the library default of every class, copy, cast, del), re-constructed in place with longer and shorter lists.  O lines: modelled."""
+    def __init__(self, rng, emit):
+        self.r = rng; self.emit = emit
+        self.ty = {}        # slot -> dict(decl=[table index], name, size)
+        self.ob = {}        # slot -> dict(ty, v)
+    def decl(self, t, cls):
+        return next((k for k in self.ty[t]['decl'] if RT_TABLE[k][1] == cls), None)
+    def needs(self, t, cls, m):
+        k = self.decl(t, cls)
+        return k is not None and RT_TABLE[k][2][m] == 1
+    def insts(self, n):
+        r = self.r; x = r.random()
+        if x < 0.5: ks = r.sample(range(16), min(n, 16)) + [r.randrange(20) for _ in range(max(0, n - 16))]        # distinct classes first
+        elif x < 0.8: ks = [r.randrange(20) for _ in range(n)]                                                        # duplicates: the first one counts
+        else: ks = [(r.randrange(20) + j) % 20 for j in range(n)] if n else []
+        r.shuffle(ks)
+        return ks[:n]
+    def new_type(self, n=None, route=None):
+        r = self.r
+        fr = [i for i in range(MAXTY) if i not in self.ty]
+        if not fr: return None
+        t = r.choice(fr)
+        n = r.choice([0, 1, 2, 3, 4, 5, 6, 7, 8, 9, 10, 11, 12, 12, 16, 24]) if n is None else n
+        ks = self.insts(n); name = r.choice(RT_NAMES); size = r.choice([8, 16, 16, 24, 40, 64])
+        self.ty[t] = dict(decl=ks, name=name, size=size)
+        self.emit('ty', t, route or r.choice(RT_ROUTES), name, size, *[RT_TABLE[k][0] for k in ks])
+        return t
+    def big_type(self, n):
+        fr = [i for i in range(MAXTY) if i not in self.ty]
+        if not fr: return None
+        t = self.r.choice(fr); k = self.r.randrange(20); name = self.r.choice(RT_NAMES); size = self.r.choice([8, 16, 40])
+        if 0 <= n <= 256: self.ty[t] = dict(decl=[(k + j) % 20 for j in range(n)], name=name, size=size)
+        self.emit('tybig', t, self.r.choice(RT_ROUTES), name, size, n, k)
+        return t if 0 <= n <= 256 else None
+    def re_type(self, t, n=None):
+        r = self.r
+        if any(o['ty'] == t for o in self.ob.values()): return
+        n = r.choice([0, 1, 2, 3, 4, 5, 6, 8, 12, 20]) if n is None else n
+        ks = self.insts(n); name = r.choice(RT_NAMES); size = r.choice([8, 16, 24, 40])
+        self.ty[t] = dict(decl=ks, name=name, size=size)
+        self.emit('tyre', t, name, size, *[RT_TABLE[k][0] for k in ks])
+    def query_type(self, t):
+        r = self.r; x = r.random()
+        if x < 0.7:
+            d = [RT_TABLE[k][1] for k in self.ty[t]['decl']]
+            self.emit('tyq', t, r.choice(d) if d and r.random() < 0.6 else r.choice(RT_PROBE))
+        else: self.emit('tyshow', t)
+    def new_obj(self, t):
+        fr = [i for i in range(MAXOB) if i not in self.ob]
+        if not fr: return None
+        o = self.r.choice(fr); v = self.r.randrange(0, 200)
+        self.ob[o] = dict(ty=t, v=v if self.decl(t, 'New') is not None else 0)
+        self.emit('ob', o, t, self.r.choice(['new', 'raw', 'root']), v)
+        return o
+    def del_obj(self, o):
+        del self.ob[o]; self.emit('od', o)
+    def query_obj(self, o, q=None):
+        r = self.r; ob = self.ob[o]; t = ob['ty']; v = ob['v']
+        q = q or r.choice(['cint', 'len', 'cstr', 'cflt', 'hash', 'cmp', 'eq', 'asg', 'show', 'size', 'impl', 'cast', 'mem', 'get', 'push', 'pop', 'cat', 'resize', 'copy'])
+        same = [x for x, b in self.ob.items() if b['ty'] == t]
+        ok = lambda w: 0 <= w <= 255
+        if q in ('cint', 'len', 'cstr', 'cflt', 'mem', 'get'):
+            cls, m = dict(cint=('C_Int', 0), len=('Len', 0), cstr=('C_Str', 0), cflt=('C_Float', 0), mem=('Get', 2), get=('Get', 0))[q]
+            if not self.needs(t, cls, m) and r.random() < 0.9: return          # (sometimes sent anyway: refused by both sides)
+            self.emit('oq', o, q)
+        elif q in ('hash', 'show', 'size', 'cast'): self.emit('oq', o, q)
+        elif q == 'impl': self.emit('oq', o, 'impl', r.choice(RT_PROBE))
+        elif q in ('cmp', 'eq'): self.emit('oq', o, q, r.choice(same))
+        elif q == 'asg':
+            c = [x for x in same if x != o and ok(self.ob[x]['v'] + 1)]
+            if not c: return
+            x = r.choice(c); ob['v'] = self.ob[x]['v'] + 1 if self.needs(t, 'Assign', 0) else self.ob[x]['v']
+            self.emit('oq', o, 'asg', x)
+        elif q == 'push':
+            k = r.randrange(-5, 20)
+            if not self.needs(t, 'Push', 0) or not ok(v + k): return
+            ob['v'] = v + k; self.emit('oq', o, 'push', k)
+        elif q == 'pop':
+            if not self.needs(t, 'Push', 1) or not ok(v - 1): return
+            ob['v'] = v - 1; self.emit('oq', o, 'pop')
+        elif q == 'cat':
+            k = r.choice([0, 1, 1, 2, -1])
+            if not self.needs(t, 'Concat', 0) or not ok(v + 100 * k): return
+            ob['v'] = v + 100 * k; self.emit('oq', o, 'cat', k)
+        elif q == 'resize':
+            n = r.randrange(0, 256)
+            if not self.needs(t, 'Resize', 0): return
+            ob['v'] = n; self.emit('oq', o, 'resize', n)
+        elif q == 'copy':
+            fr = [i for i in range(MAXOB) if i not in self.ob]
+            if not fr or not ok(v + 5): return
+            d = r.choice(fr)
+            nv = v + 5 if self.needs(t, 'Copy', 0) else v + 1 if self.needs(t, 'Assign', 0) else v
+            self.ob[d] = dict(ty=t, v=nv); self.emit('oq', o, 'copy', d)
+    def del_type(self, t):
+        for o in [x for x, b in self.ob.items() if b['ty'] == t]: self.del_obj(o)
+        del self.ty[t]; self.emit('tydel', t)
+    def step(self):
+        r = self.r; x = r.random()
+        if not self.ty or x < 0.08:
+            if self.new_type() is None and self.ty: self.del_type(r.choice(list(self.ty)))
+            return
+        t = r.choice(list(self.ty))
+        obs = [o for o, b in self.ob.items() if b['ty'] == t]
+        if x < 0.20: self.query_type(t)
+        elif x < 0.32 or not obs: self.new_obj(t)
+        elif x < 0.80: self.query_obj(r.choice(obs))
+        elif x < 0.88: self.del_obj(r.choice(obs))
+        elif x < 0.93:
+            for o in obs: self.del_obj(o)
+            self.re_type(t)
+        elif x < 0.97: self.del_type(t)
+        else: self.bad()
+    def bad(self):
+        """outside the contract (or ill-formed): every build and the model refuse it identically"""
+        r = self.r; k = r.randrange(9)
+        live = list(self.ty); dead = next((i for i in range(MAXTY) if i not in self.ty), None)
+        if k == 0 and live: self.emit('ty', r.choice(live), 'new', 'Dup', 16, 'Cmp')
+        elif k == 1 and dead is not None: self.emit('ty', dead, 'new', 'Odd', r.choice([0, 7, 12, 72, -8]), 'Cmp')
+        elif k == 2 and dead is not None: self.emit('ty', dead, 'new', 'bad_name', 16)
+        elif k == 3 and dead is not None: self.emit('ob', r.randrange(MAXOB), dead, 'new', 1)
+        elif k == 4 and live: self.emit('ob', 30, r.choice(live), 'new', 1)
+        elif k == 5 and live and any(b['ty'] == live[0] for b in self.ob.values()): self.emit(r.choice(['tydel', 'tyre']), live[0], *(['X', 8] if False else []))
+        elif k == 6: self.emit('ty', 9, 'new', 'Far', 16)
+        elif k == 7 and dead is not None: self.emit('tybig', dead, 'raw', 'Big', 16, r.choice([257, 300, -1]), 0)
+        else: self.emit('ty', 0, 'sideways', 'X', 8)
+    def scenario(self, n, route):
+        """the directed shape: a type with n instances by the given route; every probe class asked; two objects used through every
+        class the type declares and through the defaults of those it does not; re-constructed in place (shorter, then longer); deleted"""
+        r = self.r
+        for t in list(self.ty):
+            if len(self.ty) >= MAXTY - 1: self.del_type(t)
+        t = self.new_type(n, route)
+        if t is None: return
+        for c in r.sample(RT_PROBE, 6): self.emit('tyq', t, c)
+        self.emit('tyshow', t)
+        a = self.new_obj(t); b = self.new_obj(t)
+        if a is not None and b is not None:
+            for q in ['size', 'cast', 'hash', 'show', 'cmp', 'eq', 'cint', 'len', 'cstr', 'cflt', 'mem', 'get', 'push', 'pop', 'resize', 'cat', 'asg', 'copy', 'impl']:
+                self.query_obj(a, q)
+            self.query_obj(b, 'show'); self.query_obj(b, 'hash')
+        for o in [x for x, ob in self.ob.items() if ob['ty'] == t]: self.del_obj(o)
+        self.re_type(t, r.choice([0, 1, 2, 3]) if n > 3 else n + r.choice([3, 4, 5, 6, 9]))
+        for c in r.sample(RT_PROBE, 4): self.emit('tyq', t, c)
+        o = self.new_obj(t)
+        if o is not None:
+            for q in ['show', 'hash', 'size', 'cint', 'len']: self.query_obj(o, q)
+            self.del_obj(o)
+        self.re_type(t, r.choice([4, 5, 6, 7, 12]))
+        self.emit('tyshow', t)
+        if r.random() < 0.7: self.del_type(t)
+
 PROFILES = {
-    'mixed':  dict(probe=3, ring=1, new=10, kill=6, push=14, pop=8, read=12, set=5, sort=3, mset=12, mread=9, mrem=5, copy=4, concat=2, resize=1, cmp=4, vset=2, exc=2, tonly=8, tuple=8, edit=10, nested=4),
+    'mixed':  dict(rt=8, probe=3, ring=1, new=10, kill=6, push=14, pop=8, read=12, set=5, sort=3, mset=12, mread=9, mrem=5, copy=4, concat=2, resize=1, cmp=4, vset=2, exc=2, tonly=8, tuple=8, edit=10, nested=4),
     'seq':    dict(probe=1, ring=1, new=6, kill=3, push=30, pop=16, read=14, set=8, sort=6, copy=3, concat=4, resize=2, cmp=4, tonly=6, exc=1, edit=8),
     'map':    dict(probe=1, ring=1, new=5, kill=2, mset=40, mread=20, mrem=18, copy=3, tonly=2, exc=1, edit=10),
-    'churn':  dict(probe=3, ring=4, new=30, kill=26, copy=12, push=6, mset=6, read=4, mread=4, vset=4, tonly=6, exc=2, tuple=14, edit=6, nested=4, _drop=0.6),   # allocation pressure: collector at work
-    'views':  dict(probe=8, ring=1, new=8, kill=3, push=14, pop=4, tonly=50, read=6, vset=4, exc=6, cmp=4, edit=4),
+    'churn':  dict(rt=6, probe=3, ring=4, new=30, kill=26, copy=12, push=6, mset=6, read=4, mread=4, vset=4, tonly=6, exc=2, tuple=14, edit=6, nested=4, _drop=0.6),   # allocation pressure: collector at work
+    'views':  dict(rt=4, probe=8, ring=1, new=8, kill=3, push=14, pop=4, tonly=50, read=6, vset=4, exc=6, cmp=4, edit=4),
     'tuples': dict(probe=2, ring=2, new=10, kill=4, vset=6, tuple=60, tonly=4, exc=2, copy=3, nested=8, _drop=0.3),   # heap Tuples whose items only the Tuple references
     'keep':   dict(probe=1, ring=1, new=8, kill=4, push=4, mset=4, read=2, mread=2, copy=2, tonly=2, keep=70, edit=2, _drop=0.5),   # containers as the sole path to managed objects
+    'types':  dict(rt=70, probe=4, ring=1, new=6, kill=3, push=3, mset=3, read=2, copy=2, tonly=4, exc=1, _drop=0.4),   # run-time types: created, queried, used, re-constructed
     'edits':  dict(probe=1, ring=1, new=12, kill=4, push=8, pop=3, read=4, set=2, sort=1, mset=12, mread=4, mrem=2, copy=4, concat=1, tonly=3, exc=1, edit=60, nested=14, _drop=0.3),   # in-place edits on every allocation class
 }
 
@@ -646,7 +815,8 @@ class C18(Spec):
     technique = ('Lean 4 proof over a configuration-indexed model of an API step (checks / method cache / collector) and of heap-graph programs whose '
                  'containers are the sole path to managed objects (collector = the C01 marker on what each Mark instance presents), source-derived '
                  'tables of every conditional-compilation block re-extracted and re-checked each run, and a differential build matrix '
-                 '(configuration switches x optimisation levels) of one interpreted public-API workload')
+                 '(configuration switches x optimisation levels) of one interpreted public-API workload; run-time type objects: every index expression of '
+                 'src/Type.c regenerated as a term and evaluated under both values of the cache switch on top of the C08 record model')
     level_text = ('Theorem C18_config_independent: in the model of an API step (type_of checks, cached Type_Instance, method check, guarded '
                   'method body, header_init, registration with the collector, mark and sweep, del) a program whose every step is in-contract '
                   'under the default configuration produces the same outcomes and leaves the same observable object contents under every '
@@ -665,6 +835,20 @@ class C18(Spec):
                   'function, macro, condition as GExpr over header(self)->alloc, exception) together with the class every header_init site stamps '
                   '(stamps) and the enum values; the model evaluates exactly these terms on the header class of the object each guarded function '
                   'runs on (the handle`s own object, or an element embedded in an Array/List/Table/Tree reached through get or iteration). '
+                  'Run-time types (new(Type, name, size, instances...)): the layout of a type object differs between builds (CELLO_CACHE_NUM = 18 / 0 cache words, '
+                  'instance triples from cell CELLO_NBUILTINS = 8 / 2); translate/g_cfg.py regenerates every index expression of src/Type.c that touches it (the enum, '
+                  'the cell count of Type_Alloc, every loop bound and store index of Type_New with single-assignment locals substituted, the cells Type_Builtin_Name / '
+                  'Type_Builtin_Size read, the start of both walks of Type_Scan) as a term over CELLO_CACHE_NUM, CELLO_NBUILTINS, CELLO_MAX_INSTANCES, len(args) and the '
+                  'loop variable; Cello/ConfigType.lean evaluates these terms under the constants of each configuration (typeNewSrc, ofRawSrc, runLifeSrc). '
+                  'C18_type_layout_current_source: for all 8 configurations, every len(args) and every value of the loop variable each expression evaluates to the cell '
+                  'the layout of THAT configuration needs (so `t[nargs]` for the terminator, right only with the cache compiled out, breaks the build of the theorem); '
+                  'C18_type_new_source_as_layout: the source-driven constructor/readers are the word-level Type_New/record view of C08 for that layout; '
+                  'C18_type_new_any_storage_any_config: in any configuration, from any previous contents of the storage, the type reads back with the name, size and exactly '
+                  'the instance triples passed; C18_type_record_config_independent: any two configurations answer every in-contract history of lookups '
+                  '(type_instance/implements/method/implements_method, cold or warm, declared or not) interleaved with re-constructions in place identically, namely '
+                  'with what the instance list in force declares; C18_ty_line_config_independent: the observation the executable workload model (the function the driver runs under all eight '
+                  'configurations) prints for a construction line is the same through the word-level object of any two configurations and is the one the instance list dictates; C18_terminator_at_nargs_refuted: the hoisted-local variant is right for every list without the cache and loses '
+                  'the name (4 instances), the size (5) or every instance (6+) with it. '
                   'C18_alloc_guards_false_in_contract: every CELLO_ALLOC_CHECK guard of the source is false on every class on which its function is '
                   'defined (alloc_by objects AND embedded elements for String_*/Tuple_*; alloc_by objects for dealloc) - that is what makes the '
                   'check removable; C18_alloc_guards_classify: over all four classes the guards of a function fire exactly where it is undefined '
@@ -678,6 +862,14 @@ class C18(Spec):
             'print_to at a position, rem, look_from = String_Clear + String_Concat per character) applied to the object itself, to an element of an Array / '
             'List reached by get or by iteration, to a value of a Table / Tree reached by get, to a key reached by iteration (value-preserving edits only) - '
             'i.e. on every allocation class the functions are defined on (AllocHeap and AllocData; modelled, O lines); '
+            'run-time types `ty/tybig/tyre/tyq/tyshow/tydel/ob/oq/od` (modelled, O lines): new(Type, name, size, instances...) with 0...24 (tybig: up to 256 = '
+            'CELLO_MAX_INSTANCES) instance objects the harness provides for 16 classes (New with and without destructor, Cmp, Hash x2, Len x2, C_Int x2, Show, Assign, '
+            'Copy, Size, C_Str, C_Float, Get, Push, Concat, Mark, Resize; a class may occur twice: the first counts), by new / new_raw / new_root / '
+            'construct_with(alloc|alloc_raw|alloc_root(Type)); every construction prints and checks name (c_str), __Size cell, size(T), type_implements for 18 classes and '
+            'type_instance for each; tyq: type_implements / type_instance / type_implements_method per member; tyshow: print_to "%s|%$"; objects by '
+            'new_with/new_raw_with/new_root_with, used through every class (the declared member, or the library default for hash/cmp/eq/assign/copy/show/size/cast), del by '
+            'route with a destructor count; re-construction in place (destruct; construct_with) with longer and shorter lists; every case starts with one directed '
+            'run-time type whose instance count rotates through 0...12 and whose route rotates through the six; '
             'transcript-only: nested holders `x…` (Array / List / Table / Tree whose elements are Arrays of Int, Lists of Int or Tuples of built-in Type '
             'objects, embedded in the outer storage and edited in place through get(): push, pop, pop_at, set, concat, resize, rem of the inner object), '
             'hash, show, print_to formats, Float, range/slice/reverse/enumerate/zip/filter/map views, forced '
@@ -687,7 +879,7 @@ class C18(Spec):
             'plain struct, thread-local storage, the table of a Thread object that is not the running thread (`var t = new(Thread, f); set(t, key, obj)`; `hrun`: call(t); join(t) — the started thread reads every entry through get(current(Thread), key)) — each the only path to its Tracked objects, filled (maps with keys whose home slots lie beyond the item '
             'count, colliding keys, rehash by resize), put under allocation pressure and forced collections, every element read back (serial, payload, type) '
             'after removals with and without del, shrinking and clearing; a destructor ledger audited after every operation: no stored object finalised, none '
-            'twice, del finalises at once), seven profiles (mixed, sequences, maps with colliding keys, '
+            'twice, del finalises at once), nine profiles (mixed, sequences, maps with colliding keys, '
             'allocation churn with dropped objects, views, tuples, keep, edits; every case starts with one directed keep scenario (the ten kinds in rotation), '
             'one directed edit scenario (a String made by new / new_raw / new_root in rotation, a String Array or List, a String Table or Tree, every selector '
             'twice) and one nested holder (outer x inner kinds in rotation)), ~2% '
@@ -699,6 +891,7 @@ class C18(Spec):
                     'harness/h_cfg.c with its C shadow oracle, lean/Driver/Cfg.lean, the transcript comparison (testing)',
                     'clang-14 at -O0/-O2/-O3 with and without ASan/UBSan; libc',
                     'the model abstracts objects to values (no addresses): layouts (header size, cache words) are covered by the table theorems and the build matrix',
+                    'run-time types: Cello/Dispatch.lean (record level, Type_Scan / Type_Instance, C08) is imported as it is; the C-integer semantics of index expressions is evaluated in Z (a negative intermediate is not wrapped)',
                     'keep programs: Cello/Heap.lean (marker, C01) and Cello/Table.lean (slot placement, C02) are imported as they are; the model collects when ITS registry count passes the threshold, the real collector at other moments (the registry also holds the rest of the workload): C18_keep_collection_schedule_irrelevant is what bridges the two; Tree shape is not modelled (Tree_Mark = in-order walk over all nodes)')
     assumptions = ('in-contract programs only: every operation is validated against the harness shadow first; bad index, absent key, wrong element type, dead handle are refused before the call',
                    'known-finding territory avoided: Table/Tree equality and hashing (F06), Slice with stop/step (F11), Zip backward (F12), repeated pointers in Tuples (F13), del while the collector is stopped (F23), Box elements (F28), print_to error paths (F29)',
@@ -706,6 +899,7 @@ class C18(Spec):
                    'in-place edits: text [0-9A-Za-z_]*, results <= 30 bytes, print_to position within the text; keys of a Table/Tree are only rewritten with their own value (anything else breaks the map and is out of contract); stack and static Strings are never edited (not defined: their buffer is not a malloc block; that the guards fire there is theorem C18_alloc_guards_classify, the behaviour itself belongs to C12/C19)',
                    'nested holders: <= 8 holders x 12 inner objects x 24 items; embedded Tuples hold built-in Type objects only (static, never freed: known finding KF-C01-dangling-tuple-item avoided) and no object twice (F13); inner containers only shrink by resize',
                    'keep programs: non-negative Int keys <= 10^6, no overwriting of an existing key, at most 8 holders x 120 elements, each Tracked object stored in exactly one place (no sharing, no cycles), Box only as a chain link (F28); released objects are never required to be collected (conservative stack scan)',
+                   'run-time types: names [0-9A-Za-z]{1,20}, sizes 8..64, at most CELLO_MAX_INSTANCES instances (more is undefined with the checks compiled out), object values 0..255 (so the default memcmp order is the numeric one), a type is deleted or re-constructed only when no object of it is alive, instances live in static storage (a run-time type keeps the pointers it is given); the default hash (hash_data over the object) is checked in C and printed as `*`',
                    'optimisation levels are compared on the generated workloads, not proved')
     def __init__(self):
         self._cases = {}; self._ref = {}
@@ -729,6 +923,11 @@ class C18(Spec):
             # one directed edit scenario per case: a String container of each family, every selector applied at once; and one nested holder
             g.edit_scenario(i)
             g.nest.scenario('altr'[i % 4], 'ALU'[(i // 4) % 3])
+            # one directed run-time type per case: 0…12 instances and the six routes in rotation (so every count is constructed in every run)
+            g.rt.scenario(i % 13, RT_ROUTES[i % 6])
+            if prof == 'types':
+                g.rt.scenario(rng.choice([4, 5, 6, 7, 8, 12, 16, 24]), rng.choice(RT_ROUTES))
+                g.rt.big_type(rng.choice([13, 60, 250, 255, 256, 256]))
             for _ in range(length): g.step()
             c = Case(f'{prof}{i}b{boost}', g.lines)
             cs.append(c); self._cases[c.name] = c
@@ -775,6 +974,14 @@ class C18(Spec):
         if m:
             for k, g in (('impl_inplace_edits', 1), ('impl_inplace_edits_on_embedded_elements', 2), ('impl_nested_holder_ops', 3)):
                 acc[k] = acc.get(k, 0) + int(m.group(g))
+        m = re.search(r' rt-ops=(\d+)', c_out)
+        if m: acc['impl_runtime_type_ops'] = acc.get('impl_runtime_type_ops', 0) + int(m.group(1))
+        m = re.search(r' rt-ops=(\d+)', m_out)
+        if m: acc['model_runtime_type_ops'] = acc.get('model_runtime_type_ops', 0) + int(m.group(1))
+        for l in case.lines:
+            t = l.split(' ')
+            if t[0] in ('ty', 'tyre') and len(t) >= 4:
+                k = f'rt_instances_{min(len(t) - (5 if t[0] == "ty" else 4), 13)}'; acc[k] = acc.get(k, 0) + 1       # how many types were built with 0,1,...,12,13+ instances
         m = re.search(r' edits=(\d+) elem-edits=(\d+)', m_out)
         if m:
             for k, g in (('model_inplace_edits', 1), ('model_inplace_edits_on_embedded_elements', 2)):
